@@ -110,6 +110,209 @@ def rule_walkers(ck, facts):
                 ck.bad(R, "close|%s" % gname, "%s handles %s which the clone walker does not" % (cc, sorted(c - a)), covs[cc].fn.where())
 
 
+WALKERS = ("insert_clone_recursively", "insert_release_recursively", "insert_close_closures_recursively", "clone_usersum_recursive", "release_usersum_recursive")
+
+
+def rule_walker_recursion(ck, facts):
+    R = "C12.walkers"
+    lang = facts.crate(roles.LANG)
+    fs = {}
+    for nm in WALKERS:
+        c = [f for f in lang.fns if f.short.endswith("::" + nm) and f.kind in ("assoc", "fn")]
+        if c:
+            fs[nm] = c[0]
+    paths = {f.path: nm for nm, f in fs.items()}
+    n = 0
+    for nm, f in fs.items():
+        cov = cover.coverage(facts, f, roles.TYPE)
+        if not cov:
+            continue
+        for v in sorted(cov.primary_handled()):
+            tb = cov.arm_target(v)
+            if tb is None:
+                continue
+            region = reachable(f, tb, stop=[cov.primary.block])
+            others = []
+            selfcalls = 0
+            for b in region:
+                t = f.term(b)
+                if t[KIND] != "call":
+                    continue
+                c = callee(t) or ""
+                if c == f.path:
+                    selfcalls += 1
+                elif c in paths:
+                    others.append((paths[c], t))
+            if not selfcalls and not others:
+                continue
+            n += 1
+            key = "recursion|%s|%s" % (nm, v)
+            if others:
+                ck.bad(R, key, "%s: the arm for Type::%s descends into the element values with %s instead of with itself: everything below that aggregate gets the other walker's treatment (e.g. closures are closed but boxed / variant values under a record are never released: one heap object leaks per evaluation)" % (f.short, v, others[0][0]), f.where(others[0][1]))
+            else:
+                ck.ok(R, key)
+    ck.floor(R, "recursive_walker_arms", n, 10)
+
+
+def rule_vm_walker_offsets(ck, facts):
+    R = "C12.offsets"
+    ck.rule(R, "the VM's run-time clone / release walkers over variant payloads slice a tuple's elements at a running word offset advanced by each element's word size (an accumulator updated in the loop), never at the element index; the two walkers agree")
+    lang = facts.crate(roles.LANG)
+    verdicts = {}
+    for nm in ("clone_usersum_recursive", "release_usersum_recursive"):
+        c = [f for f in lang.fns if f.short.endswith("::" + nm) and f.kind in ("assoc", "fn")]
+        ck.require(R, len(c) == 1, "anchor|%s" % nm, "VM walker %s not found" % nm)
+        if len(c) != 1:
+            continue
+        f = c[0]
+        cov = cover.coverage(facts, f, roles.TYPE)
+        if not cov:
+            ck.bad(R, "anchor|match|%s" % nm, "%s does not match on Type" % nm, f.where())
+            continue
+        for v in ("Tuple", "Record"):
+            if v not in cov.primary_handled() or cov.arm_target(v) is None:
+                continue
+            region = reachable(f, cov.arm_target(v), stop=[cov.primary.block])
+            has_ws = False
+            uses_enum = False
+            acc = False
+            recursive = False
+            for b in region:
+                t = f.term(b)
+                if t[KIND] == "call":
+                    c2 = callee(t) or ""
+                    if c2.endswith("::word_size"):
+                        has_ws = True
+                    if c2.endswith("::enumerate"):
+                        uses_enum = True
+                    if c2 == f.path:
+                        recursive = True
+            # accumulator: a local that is assigned `itself + x` inside the arm
+            from ..cfg import DefIndex
+            di = DefIndex(f)
+            for b in region:
+                for st in f.stmts(b):
+                    if st[KIND] == "a" and not st[4][1] and st[5][0] == "use" and st[5][1][0] in ("cp", "mv") and st[5][1][1][1]:
+                        # x = move (tmp.0) where tmp = checked add (x, y)
+                        r = di.resolve(["cp", [st[5][1][1][0], []]])
+                        if r[0] == "rv" and r[1][5][0] == "bin" and r[1][5][1] in ("add", "add_ov") and any(o[0] in ("cp", "mv") and o[1][0] == st[4][0] for o in r[1][5][2:4]):
+                            acc = True
+                    if st[KIND] == "a" and not st[4][1] and st[5][0] == "bin" and st[5][1] in ("add", "add_ov") and any(o[0] in ("cp", "mv") and o[1][0] == st[4][0] for o in st[5][2:4]):
+                        acc = True
+            if not recursive:
+                continue
+            verdicts[(nm, v)] = (acc and has_ws and not uses_enum)
+            key = "arm|%s|%s" % (nm, v)
+            if verdicts[(nm, v)]:
+                ck.ok(R, key, {"walker": nm, "arm": v, "offset": "running sum of word_size"})
+            else:
+                ck.bad(R, key, "%s (arm %s): element words are not addressed by a running word offset (accumulator=%s, word_size=%s, enumerate=%s): after a multi-word element the walker reads the wrong word, takes a float for a handle and skips the boxed child — it is never released (one heap object leaks per evaluation) or a live one is released" % (nm, v, acc, has_ws, uses_enum), f.where())
+    ck.floor(R, "vm_walker_aggregate_arms", len(verdicts), 2)
+
+
+def _emitted_instr(f, cov, v):
+    """MIR instruction variants constructed directly in the arm of variant v"""
+    tb = cov.arm_target(v)
+    out = set()
+    if tb is None:
+        return out
+    for b in reachable(f, tb, stop=[cov.primary.block]):
+        for st in f.stmts(b):
+            if st[KIND] == "a" and st[5][0] == "agg" and st[5][1][0] == "adt" and st[5][1][1] == roles.MIR_INSTR:
+                out.add(st[5][1][3])
+    return out
+
+
+def rule_pairing(ck, facts, cg):
+    R = "C12.pairing"
+    ck.rule(R, "reference counts are paired: (instr) for every Type variant whose clone inserter emits an instruction that the VM executes as a retain, the release inserter emits an instruction the VM executes as a release; (scope) every place of the MIR generator that clones a value for a new owner — an argument of a call, a name bound by a match pattern — has a release for that owner where its scope ends (the callee's exit, the end of the arm)")
+    lang = facts.crate(roles.LANG)
+    get = lambda nm: next((f for f in lang.fns if f.short.endswith("::" + nm) and f.kind in ("assoc", "fn")), None)
+    clone_f, rel_f = get("insert_clone_recursively"), get("insert_release_recursively")
+    ck.require(R, clone_f is not None and rel_f is not None, "anchor|inserters", "clone / release inserters not found")
+    vd = roles.vm_dispatch(facts)
+    ck.require(R, vd is not None, "anchor|vm-dispatch", "VM dispatch not found")
+    if clone_f is None or rel_f is None or vd is None:
+        return
+    ccov, rcov = cover.coverage(facts, clone_f, roles.TYPE), cover.coverage(facts, rel_f, roles.TYPE)
+
+    def vm_effect(instr):
+        """'retain' / 'release' / None: what the VM arm of that instruction does to a reference count"""
+        if instr not in vd.primary_handled() or vd.arm_target(instr) is None:
+            return "?"
+        seen = set()
+        work = [c for c in arm_callees(vd.fn, vd, instr)]
+        eff = set()
+        depth = {c: 0 for c in work}
+        while work:
+            c = work.pop()
+            if c in seen:
+                continue
+            seen.add(c)
+            n = c.split("::")[-1]
+            if n in ("heap_retain",):
+                eff.add("retain")
+            if n in ("heap_release", "heap_release_closure", "release_heap_closure", "drop_closure"):
+                eff.add("release")
+            g = facts.fn(c)
+            if g is not None and depth.get(c, 0) < 3 and g.crate == vd.fn.crate:
+                for _, t in g.calls():
+                    c2 = callee(t) or ""
+                    if c2 not in seen:
+                        depth[c2] = depth.get(c, 0) + 1
+                        work.append(c2)
+        return "+".join(sorted(eff)) or None
+
+    n = 0
+    for v in sorted(ccov.primary_handled()):
+        ci = _emitted_instr(clone_f, ccov, v) - {"GetElement"}
+        if not ci:
+            continue
+        ri = _emitted_instr(rel_f, rcov, v) - {"GetElement"} if v in rcov.primary_handled() else set()
+        ce = {i: vm_effect(i) for i in ci}
+        re_ = {i: vm_effect(i) for i in ri}
+        if not any(e and "retain" in e for e in ce.values()):
+            continue
+        n += 1
+        key = "instr|%s" % v
+        if any(e and "release" in e for e in re_.values()):
+            ck.ok(R, key, {"type": v, "clone": ce, "release": re_})
+        else:
+            ck.bad(R, key, "a value of type %s is retained when it gets a new owner (%s) but the release inserter emits %s for it, which the VM executes without decrementing any count: every such value that is passed on or returned stays allocated for ever (one closure + one heap object per evaluation)" % (v, ", ".join("%s=%s" % kv for kv in sorted(ce.items())), ", ".join("%s=%s" % kv for kv in sorted(re_.items())) or "nothing"), rel_f.where())
+    ck.floor(R, "retained_type_variants", n, 2)
+    # (scope)
+    mg = [f for f in lang.fns if "::compiler::mirgen::" in f.path and f.kind != "promoted"]
+    byroot = {}
+    for f in mg:
+        byroot.setdefault(f.root, []).append(f)
+    m = 0
+    for root, fam in sorted(byroot.items()):
+        short = root.split("::")[-1]
+        if short in ("insert_clone_recursively", "insert_release_recursively", "insert_close_closures_recursively"):
+            continue
+        clones = [(g, t) for g in fam for _, t in g.calls() if (callee(t) or "") == clone_f.path]
+        if not clones:
+            continue
+        binds = any((callee(t) or "").split("::")[-1] in ("bind_pattern", "add_bind") and "mirgen" in (callee(t) or "") for g in fam for _, t in g.calls())
+        releases = any((callee(t) or "") == rel_f.path for g in fam for _, t in g.calls())
+        if short == "eval_args":
+            # the new owner is the callee: parameters must be released where functions end (the code that emits Return)
+            exits = [g for g in mg if any(st[KIND] == "a" and st[5][0] == "agg" and st[5][1][0] == "adt" and st[5][1][1] == roles.MIR_INSTR and st[5][1][3] in ("Return", "ReturnFeed") for _, st in g.all_stmts())]
+            rel_at_exit = any((callee(t) or "") == rel_f.path for g in exits for _, t in g.calls())
+            m += 1
+            if rel_at_exit:
+                ck.ok(R, "scope|arguments")
+            else:
+                ck.bad(R, "scope|arguments", "eval_args clones every reference-counted argument for the callee, but no code that emits a function's Return releases the callee's parameters: each call with a list / closure / boxed argument leaves one reference behind (heap grows by one object per call)", clones[0][0].where(clones[0][1]))
+        elif binds and short != "eval_expr":
+            m += 1
+            if releases:
+                ck.ok(R, "scope|%s" % short)
+            else:
+                ck.bad(R, "scope|%s" % short, "%s clones the values it binds to pattern variables, but never emits a release for them when the arm ends (the only release site of the generator is the end of a `let`): matching on a list / variant payload leaks one reference per evaluation" % short, clones[0][0].where(clones[0][1]))
+    ck.floor(R, "clone_scopes_checked", m, 3)
+
+
 def rule_predicates(ck, facts):
     R = "C12.predicates"
     ck.rule(R, "in the recursive Type predicates that steer reference counting (contains_function / contains_boxed / contains_code ...), every aggregate arm quantifies its elements with the same quantifier (`any`): an aggregate contains X iff some element does")
@@ -138,8 +341,13 @@ def rule_predicates(ck, facts):
 
 
 def run(ck, facts, tier):
+    from ..callgraph import CallGraph
+
+    rule_pairing(ck, facts, None)
+    rule_walker_recursion(ck, facts)
+    rule_vm_walker_offsets(ck, facts)
     rule_return_arms(ck, facts)
     rule_creation_registers(ck, facts)
     rule_walkers(ck, facts)
     rule_predicates(ck, facts)
-    ck.not_decided("boundedness of live closures / heap objects over time on concrete programs (the agent that seeded defects reports that the pinned tree already leaks for closures passed as arguments or returned; no static rule here derives that)")
+    ck.not_decided("boundedness of live closures / heap objects over time on concrete programs; temporaries cloned by projections that are neither bound nor passed on")
